@@ -710,6 +710,60 @@ class Tab:
         if not nbad:
             self.ok("T15", 34, "km/m tables of average area and edge length agree (1e6, 1e3) and decrease with resolution")
 
+    # ------------------------------------------------------------- T17 / T18 polyfill tables
+    def T17(self):
+        """the per-resolution maximum edge length is not below the average edge length (a bounding box built from it must cover the cell)"""
+        mx = self.T.get("MAX_EDGE_LENGTH_RADS")
+        lens = self.T.get("lens", "getHexagonEdgeLengthAvgKm")
+        floats, ints = macro_values(self.cfg)
+        R = floats.get("EARTH_RADIUS_KM")
+        if R is None:
+            raise AnalysisBroken("EARTH_RADIUS_KM not found")
+        nbad = 0
+        if len(mx) != 16:
+            raise AnalysisBroken("MAX_EDGE_LENGTH_RADS does not have 16 entries")
+        for r in range(16):
+            avg = lens[r] / R
+            if mx[r] < avg:
+                nbad += 1
+                self.bad("T17", "MAX_EDGE_LENGTH_RADS[%d]" % r, "MAX_EDGE_LENGTH_RADS[%d] = %.12g rad is smaller than the AVERAGE hexagon edge at that resolution (%.12g rad = %.6g km / R): cell bounding boxes built from it do not cover their cells"
+                         % (r, mx[r], avg, lens[r]), self.T.where("MAX_EDGE_LENGTH_RADS"))
+            if r and not (mx[r] < mx[r - 1]):
+                nbad += 1
+                self.bad("T17", "MAX_EDGE_LENGTH_RADS[%d]:order" % r, "MAX_EDGE_LENGTH_RADS is not decreasing at resolution %d" % r, self.T.where("MAX_EDGE_LENGTH_RADS"))
+        if not nbad:
+            self.ok("T17", 31, "MAX_EDGE_LENGTH_RADS[r] >= average edge length (getHexagonEdgeLengthAvgKm / EARTH_RADIUS_KM) and decreasing, r = 0..15")
+
+    def T18(self):
+        """pole-cell tables hold valid cell indexes of the right resolution (documented layout), one per resolution"""
+        nbad = 0
+        pent = set(self.pentagons())
+        nb = len(self.T.get("baseCellData"))
+        for name in ("NORTH_POLE_CELLS", "SOUTH_POLE_CELLS"):
+            t = self.T.get(name)
+            if len(t) != 16:
+                raise AnalysisBroken("%s does not have 16 entries" % name)
+            for r, h in enumerate(t):
+                h &= (1 << 64) - 1
+                why = None
+                if h >> 63: why = "high bit set"
+                elif (h >> 59) & 15 != 1: why = "mode %d" % ((h >> 59) & 15)
+                elif (h >> 56) & 7: why = "reserved bits set"
+                elif (h >> 52) & 15 != r: why = "resolution field %d" % ((h >> 52) & 15)
+                elif (h >> 45) & 127 >= nb: why = "base cell %d" % ((h >> 45) & 127)
+                else:
+                    digits = [(h >> (3 * (15 - d))) & 7 for d in range(1, 16)]
+                    if any(x == 7 for x in digits[:r]): why = "digit 7 inside the resolution"
+                    elif any(x != 7 for x in digits[r:]): why = "unused digit not 7"
+                    elif ((h >> 45) & 127) in pent:
+                        nz = [x for x in digits[:r] if x]
+                        if nz and nz[0] == 1: why = "deleted sub-sequence of a pentagon"
+                if why:
+                    nbad += 1
+                    self.bad("T18", "%s[%d]" % (name, r), "%s[%d] = %x is not a valid cell of resolution %d: %s" % (name, r, h, r, why), self.T.where(name))
+        if not nbad:
+            self.ok("T18", 32, "NORTH/SOUTH_POLE_CELLS[r] are valid cell indexes of resolution r by the documented layout")
+
     # ------------------------------------------------------------- T16 scalar constants (from the preprocessed headers)
     def T16(self, repo=None):
         macros, ints = macro_values(self.cfg, repo)
@@ -795,7 +849,7 @@ def macro_values(cfg, repo=None):
     return floats, ints
 
 
-ALL = ["T1", "T2", "T3", "T4", "T5", "T6", "T7", "T8", "T9", "T10", "T11", "T12", "T13", "T14", "T15", "T16"]
+ALL = ["T1", "T2", "T3", "T4", "T5", "T6", "T7", "T8", "T9", "T10", "T11", "T12", "T13", "T14", "T15", "T16", "T17", "T18"]
 
 
 def run(ctx, m, cfg, rels, only_keys=None):
